@@ -486,19 +486,25 @@ def reportAfterDocAssignmentOld (o : Obj) (sec : Sec) (off : Int) : Line := repo
 
 /-! ### docutils counts lines with `str.splitlines()`
 
-`restructuredtext.parse_docstring` hands the cleaned docstring to docutils, whose
-`statemachine.string2lines` splits it with `str.splitlines()` (after turning `\v` and `\f` into
-spaces).  Besides `'\n'` that breaks lines at U+001C, U+001D, U+001E, U+0085, U+2028, U+2029 —
-characters the Python tokenizer, `inspect.cleandoc` and `extract_docstring_linenum` do not treat as
-line ends.  Every docutils line number after such a character is one higher than the `'\n'` count. -/
+docutils' `statemachine.string2lines` splits the text with `str.splitlines()` (after turning `\v`
+and `\f` into spaces).  Besides `'\n'` that breaks lines at U+001C, U+001D, U+001E, U+0085, U+2028,
+U+2029 — characters the Python tokenizer, `inspect.cleandoc` and `extract_docstring_linenum` do not
+treat as line ends.  Since pydoctor ce72216 `restructuredtext.parse_docstring` replaces these
+characters by a blank before it calls docutils, so docutils' line structure is the `'\n'` structure. -/
 
 def isExtraBreak (c : Char) : Bool :=
   let n := c.toNat
   (0x1C ≤ n && n ≤ 0x1E) || n == 0x85 || n == 0x2028 || n == 0x2029
 
-/-- extra line breaks docutils sees before cleaned line `i` -/
-def extraBreaksBefore (doc : List Char) (i : Nat) : Nat :=
-  (((cleandocLines doc).take i).map fun l => (l.filter isExtraBreak).length).sum
+/-- `re.sub('[\x1c\x1d\x1e\x85\u2028\u2029]', ' ', docstring)` -/
+def blankExtraBreaks (doc : List Char) : List Char := doc.map fun c => if isExtraBreak c then ' ' else c
+
+/-- extra line breaks docutils sees before line `i` of a text -/
+def extraBreaksIn (lines : List (List Char)) (i : Nat) : Nat :=
+  ((lines.take i).map fun l => (l.filter isExtraBreak).length).sum
+
+/-- extra line breaks docutils would see before cleaned line `i` of the docstring as written -/
+def extraBreaksBefore (doc : List Char) (i : Nat) : Nat := extraBreaksIn (cleandocLines doc) i
 
 def noExtraBreaks (doc : List Char) : Bool := !(doc.any isExtraBreak)
 
@@ -507,8 +513,16 @@ def shiftLine (l : Line) (k : Int) : Line :=
   | .num n => .num (n + k)
   | .unknown => .unknown
 
-/-- line printed for a construct, with docutils' line structure (epytext splits on `'\n'` only) -/
+/-- line printed for a construct with docutils' line structure of the text handed to it: the cleaned
+docstring with the extra boundaries blanked (epytext splits on `'\n'` only) -/
 def reportedLineS (fmt : Fmt) (strLineno : Nat) (doc : List Char) (linenumber : Int) (isModule : Bool)
+    (c : Construct) : Line :=
+  shiftLine (reportedLine fmt strLineno doc linenumber isModule c)
+    (if fmt = .epytext then 0
+     else (extraBreaksIn ((cleandocLines doc).map blankExtraBreaks) (c.raw - dropped doc) : Nat))
+
+/-- before ce72216 docutils saw the characters themselves -/
+def reportedLineSOld (fmt : Fmt) (strLineno : Nat) (doc : List Char) (linenumber : Int) (isModule : Bool)
     (c : Construct) : Line :=
   shiftLine (reportedLine fmt strLineno doc linenumber isModule c)
     (if fmt = .epytext then 0 else (extraBreaksBefore doc (c.raw - dropped doc) : Nat))
@@ -529,11 +543,22 @@ def versionArgXrefOffset (i span n j : Int) : Int :=
 docutils gives a `title` node the line of its underline; `get_lineno` takes it as the title's first
 line.  For objects with a page of their own (modules, classes) `format_toc` renders the table of
 contents built from copies of the titles (no ancestor with a line) with a linker that still reports:
-the same name is reported a second time with offset 0. -/
+the same name was reported a second time with offset 0 (until fcb5e8a). -/
 
 def sectionTitleXrefOffset (base i j : Int) : Int := getLineno none [⟨some (i + 1 + base), some j⟩]
 
-def tocXrefOffset : Int := getLineno none [⟨none, none⟩, ⟨none, none⟩]
+/-- before fcb5e8a: offset of the second report made while the table of contents was rendered -/
+def tocXrefOffsetOld : Int := getLineno none [⟨none, none⟩, ⟨none, none⟩]
+
+/-- `format_toc` since fcb5e8a: the table of contents is rendered under `switch_context(obj)` with
+`linker.reporting_obj = None`; `link_xref` reports only `if self.reporting_obj` -/
+def tocReportingObj : Option Obj := none
+
+/-- reports made while an object's table of contents is rendered -/
+def tocReports (titleRefs : List Int) : List Line :=
+  match tocReportingObj with
+  | none => []
+  | some o => titleRefs.map fun _ => report o .xref tocXrefOffsetOld
 
 /-! ### objects moved by a re-export
 
